@@ -89,6 +89,21 @@ func (r *RigS) noteRegistrations() {
 		r.st.Regs = append(r.st.Regs, rec)
 		r.onRegistration(st)
 	}
+	if r.plan.Prop == "C03" {
+		for _, st := range all {
+			if !st.Closed {
+				continue
+			}
+			for i := len(r.st.Regs) - 1; i >= 0; i-- {
+				if g := &r.st.Regs[i]; g.Inc == r.plan.Incarnation && g.VCh == st.Key() && g.Step == st.RegStep {
+					if !g.Closed {
+						g.Closed, g.CloseStep = true, st.CloseStep
+					}
+					break
+				}
+			}
+		}
+	}
 }
 
 func clientNo(id string) int {
@@ -158,11 +173,12 @@ func (r *RigS) onRegistration(st *SimStream) {
 		// the version of the stored checkpoint that names the message id the stream is registered with (the record may have
 		// been written again between the moment the service read it and the registration)
 		r.noteCheckpointVersions()
-		h := r.st.CkptHist[fmt.Sprintf("%s|%d|%s", owner, st.Coll, st.PCh)]
+		h := r.st.CkptHist[fmt.Sprintf("%d|%s", st.Coll, st.PCh)] // (of whichever task: with two tasks on one downstream the task that registers the stream need not be the one the model takes for the owner)
 		for i := len(h) - 1; i >= 0; i-- {
-			if int(h[i][0]) == st.SeekSeq {
+			// (several versions may name the same message id - a tick-only pack and a data pack ending there - with different
+			// times: the earliest time is taken, which demands least)
+			if int(h[i][0]) == st.SeekSeq && (rec.CkptMs < 0 || h[i][1] < rec.CkptMs) {
 				rec.CkptMs = h[i][1]
-				break
 			}
 		}
 	}
@@ -621,10 +637,14 @@ func (r *RigS) noteCheckpointVersions() {
 			if pi == nil || pi.DataPair == nil {
 				continue
 			}
-			k := fmt.Sprintf("%s|%d|%s", p.TaskID, p.CollectionID, pch)
+			k := fmt.Sprintf("%d|%s", p.CollectionID, pch)
 			v := [2]int64{int64(MsgIDToSeq(pi.DataPair.Data)), pi.Time}
-			if h := r.st.CkptHist[k]; len(h) == 0 || h[len(h)-1] != v {
-				r.st.CkptHist[k] = append(h, v)
+			known := false
+			for _, x := range r.st.CkptHist[k] {
+				known = known || x == v
+			}
+			if !known {
+				r.st.CkptHist[k] = append(r.st.CkptHist[k], v)
 			}
 		}
 	}
@@ -1567,9 +1587,23 @@ func (r *RigS) checkAckTime() {
 		tick      uint64
 		inc, step int
 		n, seq    int
+		cstep     int
 		stale     bool
 	}
 	before := func(ai, as, bi, bs int) bool { return ai < bi || (ai == bi && as < bs) }
+	// the step at which a pack's times were computed under the channel lock (hook note), else the step of its acknowledgement
+	computedAt := func(a Ack, T uint64) int {
+		cstep, exact := a.Step, false
+		for _, lo := range r.st.LockOrder[a.Channel] {
+			if int(lo[0]) == a.Inc && lo[1] == T && (!exact || int(lo[2]) == a.EndSeq) && int(lo[3]) <= a.Step {
+				if int(lo[2]) == a.EndSeq {
+					exact = true
+				}
+				cstep = int(lo[3]) // (the latest computation of a pack with this closing tick, preferably with this end id)
+			}
+		}
+		return cstep
+	}
 	for tgt := range r.st.SDK {
 		last := map[string]*mark{}
 		for n, a := range r.st.SDK[tgt].Acks {
@@ -1611,22 +1645,44 @@ func (r *RigS) checkAckTime() {
 			prev := last[a.Channel]
 			if prev != nil && (T < prev.tick || (maxData != 0 && minData <= prev.tick)) {
 				cls := ""
+				// the step at which the pack's times were computed (under the channel lock), else the step of its acknowledgement
+				cstep := computedAt(a, T)
+				// the floor the pinned design guarantees at that moment: the greatest floor implied by the stored checkpoints of
+				// the streams registered on this channel so far (latest registration of each stream)
+				latest := map[string]*SRegRec{}
 				for i := range r.st.Regs {
 					g := &r.st.Regs[i]
-					if g.Owner == "" || g.Tgt != tgt || !contains(g.TgtPChs, a.Channel) || !before(g.Inc, g.Step, a.Inc, a.Step+1) {
+					if g.Owner == "" || g.Tgt != tgt || !contains(g.TgtPChs, a.Channel) || !before(g.Inc, g.Step, a.Inc, cstep+1) {
 						continue
 					}
-					if c := r.collByID[g.Coll]; name != "" && (c == nil || c.Name != name) {
-						continue
+					if g.Inc != a.Inc || (g.Closed && g.CloseStep < cstep) {
+						continue // not registered any more when the pack was computed
 					}
-					floor := uint64(0)
-					if g.CkptMs >= 0 {
+					vk := g.VCh
+					if j := strings.Index(vk, "|"); j >= 0 {
+						vk = vk[j+1:]
+					}
+					if chanShardOf(vk) != chanShardOf(a.Channel) {
+						continue // the stream of another shard of the collection: it feeds another downstream channel
+					}
+					latest[vk] = g
+				}
+				floor, preStop := uint64(0), false
+				for _, g := range latest {
+					if g.CkptMs >= 0 && uint64(g.CkptMs+1)<<18 > floor {
 						floor = uint64(g.CkptMs+1) << 18
 					}
-					if minTs > floor && !before(g.Inc, g.Step, prev.inc, prev.step) {
-						cls = "_resume_floor_below_acknowledged"
-						s.Probe("S_resume_floor_below_acknowledged")
+					if !before(g.Inc, g.Step, prev.inc, prev.step) {
+						preStop = true // the pack regressed against was acknowledged no later than this registration
 					}
+					if g.Inc == prev.inc && prev.cstep < g.Step && g.Step <= prev.step {
+						// ... or it was computed before this registration and acknowledged after it: it outlived the stop
+						prev.stale = true
+					}
+				}
+				if len(latest) > 0 && minTs >= floor && preStop {
+					cls = "_resume_floor_below_acknowledged"
+					s.Probe("S_resume_floor_below_acknowledged")
 				}
 				if cls == "" && prev.stale {
 					// the pack it regresses against had been computed by an earlier registration of its stream and waited in the
@@ -1684,16 +1740,51 @@ func (r *RigS) checkAckTime() {
 				cands := ""
 				for i := range r.st.Regs {
 					if g := &r.st.Regs[i]; g.Owner != "" && g.Tgt == tgt {
-						cands += fmt.Sprintf(" [%s inc=%d step=%d ckpt_ms=%d on %v]", g.VCh, g.Inc, g.Step, g.CkptMs, g.TgtPChs)
+						cands += fmt.Sprintf(" [%s inc=%d step=%d closed=%v/%d seek=%d/%d ckpt_ms=%d on %v]", g.VCh, g.Inc, g.Step, g.Closed, g.CloseStep, g.SeekSeq, g.SeekTs, g.CkptMs, g.TgtPChs)
 					}
 				}
+				cands += fmt.Sprintf(" (computed at step %d, %d streams registered on the channel then, floor %d, earlier pack acknowledged before a registration: %v)", cstep, len(latest), floor, preStop)
 				s.Violate("C03", rule+cls, "target %d channel %s: pack #%d (incarnation %d, step %d) carries %s, not above the closing tick %d of the earlier pack #%d (incarnation %d, step %d); stream registrations on this downstream:%s", tgt, a.Channel, n, a.Inc, a.Step, what, prev.tick, prev.n, prev.inc, prev.step, cands)
 			}
 			if prev == nil || T >= prev.tick {
-				last[a.Channel] = &mark{tick: T, inc: a.Inc, step: a.Step, n: n, seq: a.EndSeq, stale: a.EndSeq > a.OpenMax}
+				last[a.Channel] = &mark{tick: T, inc: a.Inc, step: a.Step, n: n, seq: a.EndSeq, cstep: computedAt(a, T), stale: a.EndSeq > a.OpenMax}
 			}
 		}
 	}
+}
+
+// chanShardOf: the channel index at the end of a physical or virtual channel name (by-dev-rootcoord-dml_1_5004v1 -> 1,
+// tgta-dml_1 -> 1), -1 if there is none.
+func chanShardOf(name string) int {
+	p := name
+	if IsVChanName(name) {
+		p = physOf(name)
+	}
+	n := -1
+	if i := strings.LastIndex(p, "_"); i >= 0 {
+		fmt.Sscanf(p[i+1:], "%d", &n)
+	}
+	return n
+}
+
+// IsVChanName: <pchannel>_<collection>v<shard>
+func IsVChanName(name string) bool {
+	i := strings.LastIndex(name, "v")
+	j := strings.LastIndex(name, "_")
+	if i < 0 || j < 0 || i < j || i == len(name)-1 {
+		return false
+	}
+	for _, c := range name[i+1:] {
+		if c < '0' || c > '9' {
+			return false
+		}
+	}
+	for _, c := range name[j+1 : i] {
+		if c < '0' || c > '9' {
+			return false
+		}
+	}
+	return i > j+1
 }
 
 // ------------------------------------------------------------------ C04 on the whole server
